@@ -206,6 +206,25 @@ func Set.Remove#atomic
   implements sets.Set.Remove
   requires s != nil
 
+// AddSet / RemoveSet under concurrent use: one s.Add (resp. s.Remove) call - each a single atomic action, above - per
+// element the argument's Range visits, and the returned count is exactly the number of those calls that reported
+// success: the counts "add up the same way" as individual Add/Remove calls (with the alternation law below).
+func Set.AddSet#atomic
+  property C05
+  mode atomic
+  opt logcalls Add
+  requires s != nil && set != nil
+  exit_ensures[count] result == logsucc(Add) && loglen(Add) == lastniter
+  rangecall 0 invariant added == logsucc(Add) && loglen(Add) == niter && 0 <= added && added <= niter
+
+func Set.RemoveSet#atomic
+  property C05
+  mode atomic
+  opt logcalls Remove
+  requires s != nil && set != nil
+  exit_ensures[count] result == logsucc(Remove) && loglen(Remove) == lastniter
+  rangecall 0 invariant removed == logsucc(Remove) && loglen(Remove) == niter && 0 <= removed && removed <= niter
+
 // The alternation law of the statement follows from per-call atomicity by induction over any linearization:
 // for one value, let m be its membership before a step, m2 after, c the number of successful Adds minus
 // successful Removes so far. Each step is an Add (kind 1), Remove (kind 2) or Has/other (kind 0) obeying the
